@@ -31,6 +31,23 @@ pub open spec fn allow_has(e: HttpError, t: Seq<char>) -> bool {
     exists|i: int| 0 <= i < own_headers(e).len() && #[trigger] own_headers(e)[i] == ("allow"@, t)
 }
 
+
+/// C02 converse ("whenever registration succeeds no request can match two endpoints"): in a well-formed trie the
+/// endpoints a node holds for one method name pairwise share no version (wf_node, kept by HttpRouter::insert: unit
+/// V14), so at most one of them serves a given version -- `first_match` is THE match, whatever the order of the list
+pub proof fn at_most_one_endpoint_serves<C: ServerContext>(n: HttpRouterNode<C>, k: String, v: Version, i: int, j: int)
+    requires
+        wf_node(n),
+        n.methods@.contains_key(k),
+        0 <= i < n.methods@[k]@.len(), 0 <= j < n.methods@[k]@.len(),
+        in_range(n.methods@[k]@[i].versions, v), in_range(n.methods@[k]@[j].versions, v),
+    ensures i == j // @no_request_matches_two_endpoints
+{
+    let hs = n.methods@[k]@;
+    if i < j { assert(in_range(hs[i].versions, v) && in_range(hs[j].versions, v)); assert(shared(hs[i].versions, hs[j].versions)); }
+    if j < i { assert(in_range(hs[j].versions, v) && in_range(hs[i].versions, v)); assert(shared(hs[j].versions, hs[i].versions)); }
+}
+
 proof fn sentinel_v10_prelude_consistent()
     ensures false
 {
